@@ -259,6 +259,47 @@ def ds_pairs(chk, tier):
                        f"[{r1.left[k]}, {r1.right[k]}] vs [{r2.left[k]}, {r2.right[k]}])", rep)
 
 
+def session_pairs(chk, tier):
+    """X inside X' as two OBJECTS built once and used for a whole sequence of operations; in between, the wider operand alone takes part in
+    aggregations whose results are discarded (imposition / envelope with a p-box that cuts into it).  Every later pair of results must
+    still be nested: an operation may not change its operands."""
+    from pyuncertainnumber.pba.pbox_abc import Staircase
+    import pyuncertainnumber as pun
+    rng = chk.rng
+    S = lambda X: Staircase(np.array(X[0]), np.array(X[1]))
+    for i in range(4 if tier == "quick" else 40):
+        kx = rng.choice(["pos", "straddle", "neg", "steps"])
+        X = pbx.gen_bounds(rng, 200, kx, dy=False)
+        span = max(X[1][-1] - X[0][0], 1e-3)
+        X2 = ([v - span / 3 for v in X[0]], [v + span / 3 for v in X[1]])                  # X strictly inside X2
+        B = ([v + span / 6 for v in X2[0]], [v + span for v in X2[1]])                     # overlaps X2, cuts into X from the left
+        Y = pbx.gen_bounds(rng, 200, "pos", dy=False)
+        x, xw, b, y = S(X), S(X2), S(B), S(Y)
+        c = rng.choice([-2.5, 2.0, 0.5])
+        steps = [("perturb", "imposition(X', B)", lambda: pun.imposition(xw, b)), ("pair", "X + c", lambda p: p + c), ("pair", "-X", lambda p: -p),
+                 ("perturb", "envelope(X', B)", lambda: pun.envelope(xw, b)), ("pair", "X.add(Y, 'p')", lambda p: p.add(y, dependency="p")),
+                 ("pair", "X + Y", lambda p: p + y), ("perturb", "B.imp(X')", lambda: b.imp(xw)), ("pair", "X * c", lambda p: p * c), ("pair", "X - Y", lambda p: p - y)]
+        done = []
+        for kind, text, f in steps:
+            done.append(text)
+            try:
+                if kind == "perturb":
+                    f()
+                    continue
+                r1, r2 = f(x), f(xw)
+            except Exception as e:
+                if kind == "pair":
+                    chk.report("Pbox.session", f"{text} raises {type(e).__name__}: {str(e)[:80]} in a sequence on two operand objects", {"kind": "pair", "X": X, "X_wide": X2, "B": B, "sequence": list(done)})
+                continue
+            chk.count("session-pair", key=("session", i, text))
+            s_ = scale_of(r2.left, r2.right)
+            if not inside((r1.left, r1.right), (r2.left, r2.right), 1e-12 * s_):
+                k = int(np.argmax((np.asarray(r2.left) > np.asarray(r1.left) + 1e-12 * s_) | (np.asarray(r1.right) > np.asarray(r2.right) + 1e-12 * s_)))
+                chk.report("Pbox.session", f"{text}: the result for X is not contained in the result for the wider X' (step {k}: [{r1.left[k]}, {r1.right[k]}] vs [{r2.left[k]}, {r2.right[k]}]) "
+                           f"after the operations {done[:-1]} on the same operand objects", {"kind": "pair", "X": X, "X_wide": X2, "B": B, "Y": Y, "c": c, "sequence": list(done)})
+                break
+
+
 def body(chk):
     pbx.patch_fast_moments()
     pr = chk.do_proofs()
@@ -266,6 +307,7 @@ def body(chk):
     expr_pairs(chk, chk.tier)
     pbox_pairs(chk, chk.tier)
     ds_pairs(chk, chk.tier)
+    session_pairs(chk, chk.tier)
     chk.corr = {"note": "no model run of its own: the models used by the theorems are validated by the C01, C03, C05, C06, C08, C11, C13 correspondence runs"}
     chk.sample({"pair": "Interval op: X inside X' (widened lo / hi / both / by a few ulp), second operand of every kind and shape"})
     chk.sample({"pair": "p-box op: X inside X' (shifted bounds / per-step widening / widened tails), dependencies f,p,o,i, constants, unary maps, env, imp, stacking, nested"})
